@@ -73,7 +73,7 @@ PROPS['C19'] = dict(engine='dir', fields=['result'], trivial_tags=[],
     trusted_base=COMMON_TB + ['modelled, not verified: openat / fstat (oracle table obtained independently per case), kernel path resolution incl. symlinks (outside the model; the crate allows them), tokio spawn_blocking'],
     assumptions=['the API takes &str: paths are UTF-8', 'symlink-free tree for the containment theorem'])
 
-PROPS['C18'] = dict(engine='file', fields=['meta', 'polls', 'new'], trivial_tags=['refused'],
+PROPS['C18'] = dict(engine='file', fields=['meta', 'file.total', 'file.end', 'new'], trivial_tags=['refused'],
     rule='real temporary files of sizes {0, 1, 65535, 65536, 65537, 131072, 200001} with position-dependent bytes x ranges whose ends lie on, just before and just after 64 KiB boundaries (plus empty and whole; half sampled in the quick tier) x truncation (set_len) to {0, start, start+1, middle, end-1, end, start+65535..65537} before poll 0, 1 or 2 (a third sampled in the quick tier); a directory and /dev/null; validators across instances (unmodified, appended, touched, replaced) and the entity through serve() with Range headers as harness-level checks. The model is run with the file length the harness saw at each read and the observed read sizes (any legal short read is accepted).' + GEN_NOTE,
     trusted_base=COMMON_TB + ['modelled, not verified: pread (returns 1..=min(asked, available) bytes, 0 at or after EOF), fstat, tokio block_in_place; Windows code paths are not compiled here'],
     assumptions=['no concurrent writer other than the harness\'s own set_len between polls', 'modification time after the epoch (else etag() panics by an explicit expect)'])
@@ -255,7 +255,7 @@ def gz_oracle(prop, toks_val):
     inp, obs = toks_val
     if not isinstance(obs, list) or len(obs) != 5:
         return []
-    cap, level, meth, ae, parts, ops = inp
+    cap, level, meth, ae, parts, ops = inp[:6]
     hdrs, has_writer, h0, e0, results = obs
     fails = []
     accepted = b''
